@@ -259,10 +259,15 @@ class World:
             @wamp.subscribe(TOPICS[0], options=T.SubscribeOptions(details=True))
             def on_b(self_, *a, **kw):
                 return world.on_invoke(h0 + 1, a, kw, obj=self_)
+
+            # a method WITHOUT options after one with options: must not inherit them
+            @wamp.subscribe(TOPICS[0])
+            def on_c(self_, *a, **kw):
+                return world.on_invoke(h0 + 2, a, kw, obj=self_)
         obj = Obj()
         self.has_obj = True
         exp = []
-        for i, mode in enumerate(("plain", "det")):
+        for i, mode in enumerate(("plain", "det", "plain")):
             self.hmode.append("obj-" + mode)
             self.htopic.append(0)
             self.hobj.append(obj)
